@@ -14,8 +14,8 @@ def run(ctx):
     ctx.tlc_stats.append(dict(name="enumerate", module="AuthFail", cfg="product of annotation values", generated=r["generated"],
                               distinct=r["distinct"], depth=r["depth"], wall_s=round(r["wall"], 1), violated=None))
     cases = core.behaviours_from_print(r["out"])
-    if len(cases) != 10 * 4 * 2 * 3 * 2 * 3 * 2 * 2:
-        raise Undecided("expected 5760 cases, TLC printed %d" % len(cases))
+    if len(cases) != 10 * 4 * 2 * 3 * 2 * 3 * 2 * 2 * 2:
+        raise Undecided("expected 11520 cases, TLC printed %d" % len(cases))
     inp = ctx.path("a", "in.json")
     out = ctx.path("a", "trace.ndjson")
     json.dump(cases, open(inp, "w"))
